@@ -42,6 +42,7 @@ type Config struct {
 	Base          Personality
 	Fickle        bool // personality drawn per request
 	Redirect      bool // blob requests at the registry host are redirected to the CDN host
+	CDNSecondHop  bool // the CDN redirects once more to a location on its own host (e.g. a canonical or signed URL)
 	ExpireDen     int  // a CDN URL that was used before is answered 403 with probability 1/ExpireDen
 	HeadRefused   bool // HEAD is answered 405
 	FaultDen      int  // transient failure (conn error, 5xx, truncated / failing body, omitted part, stall) with probability 1/FaultDen
@@ -305,6 +306,13 @@ func (r *Registry) serve(t *simrt.Task, rec *Request, req *http.Request, fault s
 		h := http.Header{}
 		h.Set("Location", fmt.Sprintf("https://%s/blob/%s?token=%s", r.Cfg.CDNHost, digest, id))
 		return r.plain(req, 307, h, nil)
+	}
+	if req.URL.Host == r.Cfg.CDNHost && r.Cfg.CDNSecondHop && req.URL.Query().Get("hop") == "" {
+		rec.Shape = "redirect2"
+		r.Stats["redirect2"]++
+		h := http.Header{}
+		h.Set("Location", fmt.Sprintf("https://%s/blob/%s?token=%s&hop=2", r.Cfg.CDNHost, digest, req.URL.Query().Get("token")))
+		return r.plain(req, 302, h, nil)
 	}
 	if req.URL.Host == r.Cfg.CDNHost {
 		tk := r.tokens[req.URL.Query().Get("token")]
